@@ -240,6 +240,33 @@ impl<'a> SendBlocksProofProcess<'a> {
                 }
             }
         }
+        if original_request.should_get_blocks() && !missing_block_hashes.is_empty() {
+            // A matched block which is not in the chain of the peer will never be proved (it
+            // is of a branch which is abandoned meanwhile), and the client would wait for it
+            // for ever. The filters of the range have to be fetched again for the current chain.
+            let mut matched_blocks = self
+                .protocol
+                .peers()
+                .matched_blocks()
+                .write()
+                .expect("poisoned");
+            if missing_block_hashes
+                .iter()
+                .any(|hash| matched_blocks.contains_key(&hash.unpack()))
+            {
+                if let Some((start_number, _, _)) =
+                    self.protocol.storage().get_earliest_matched_blocks()
+                {
+                    let storage = self.protocol.storage();
+                    let rewind_to = start_number.saturating_sub(1);
+                    if storage.get_min_filtered_block_number() > rewind_to {
+                        storage.update_min_filtered_block_number(rewind_to);
+                    }
+                    storage.remove_matched_blocks(start_number);
+                }
+                matched_blocks.clear();
+            }
+        }
         self.protocol
             .peers()
             .mark_fetching_headers_missing(&missing_block_hashes);
